@@ -22,6 +22,7 @@ inductive Clause
   | jsonRoundtrip        -- JsonDecode (JsonEncode v) ≠ v
   | messageOnlyObjects   -- JsonRpc::DecodeMessage returned something that is not a dictionary (null pointer, other value)
   | messageNotObjectText -- JsonRpc::DecodeMessage returned a dictionary for a payload that is not a JSON object text
+  | depthLimit           -- JsonDecode accepted a document nested deeper than its declared limit
   | utf8Wellformed       -- ValidateUTF8 returned bytes that are not well-formed UTF-8
   | utf8KeepsValid       -- ValidateUTF8 changed a well-formed input
   | noCrash              -- the real code crashed, aborted or hung while processing the case
@@ -33,6 +34,7 @@ def Clause.name : Clause → String
   | .framesSplit => "framesSplit" | .framesEnd => "framesEnd" | .readerEnds => "readerEnds"
   | .itemsInside => "itemsInside" | .writerFormat => "writerFormat" | .jsonRoundtrip => "jsonRoundtrip"
   | .messageOnlyObjects => "messageOnlyObjects" | .messageNotObjectText => "messageNotObjectText" | .noCrash => "no_crash"
+  | .depthLimit => "depthLimit"
   | .utf8Wellformed => "utf8Wellformed" | .utf8KeepsValid => "utf8KeepsValid"
 
 /-! ### frames from the network -/
